@@ -7,7 +7,11 @@ package main
 //          as a nil pointer, the zero value, or by NewErrorContainer();
 //   table: a build history on one table (rows, separators, headers, direct
 //          errors, failing callbacks registered through the public API at every
-//          level and time, render passes).
+//          level and time, render passes), beside which a second table may
+//          exist that takes rows - detached ones, or rows the first table
+//          already holds (a row shared between two tables).  Nothing done to
+//          the second table is an event of the first: its Errors() must not
+//          move, and it goes on accumulating afterwards.
 // Every error value the harness makes is distinct (*c11Err, id = order of
 // creation); a callback makes a fresh one each time it fires and logs the
 // firing as the event `CallbackFails site row id`, the site being derived from
@@ -288,6 +292,7 @@ type c11StepDesc struct {
 	Op     string   `json:"op"`
 	Events []string `json:"events,omitempty"`
 	Table  string   `json:"table_errors,omitempty"`
+	Other  string   `json:"other_table_errors,omitempty"`
 	Rows   string   `json:"row_errors,omitempty"`
 	Errors string   `json:"errors,omitempty"`
 	After  string   `json:"errors_after_caller_overwrote_its_slice,omitempty"`
@@ -596,7 +601,12 @@ func (cb *c11Cb) act(o tabular.PropertyOwner, site string, r int) {
 	switch cb.do {
 	case 1:
 		id, e := h.x.fresh()
-		if row != nil && rid >= 0 {
+		if row != nil && rid >= 0 && h.taken[rid] {
+			h.emit(fmt.Sprintf("OtherRowAddError %d (e %d)", rid, id), fmt.Sprintf("inside the callback: row %d (now the other table's) AddError e%d", rid, id))
+			h.raise(rid, id, "rowerr-inside-callback")
+			h.tags = append(h.tags, "callback-records-on-taken-row@"+site)
+			row.AddError(e)
+		} else if row != nil && rid >= 0 {
 			h.emit(fmt.Sprintf("RowAddError %d (e %d)", rid, id), fmt.Sprintf("inside the callback: row %d AddError e%d", rid, id))
 			h.raise(rid, id, "rowerr-inside-callback")
 			h.tags = append(h.tags, "callback-records-on-row@"+site)
@@ -652,6 +662,57 @@ type c11Table struct {
 	wasPending map[int]bool
 	raised     int
 	tags       []string
+	// a second table beside the one under test (made on first use): rows of
+	// either kind - still detached, or already rows of t - are added to it
+	u        *tabular.ATable
+	taken    map[int]bool // the row reports to u now
+	cellSeen map[*tabular.Cell]int
+	expOther []int        // Go-side copy of u's expected log
+}
+
+func (h *c11Table) other() *tabular.ATable {
+	if h.u == nil {
+		h.u = tabular.New()
+		h.tags = append(h.tags, "second-table")
+	}
+	return h.u
+}
+
+// the call sites that hand a callback's error to the row, not to the table
+func c11SiteViaRow(s string) bool {
+	switch s {
+	case "SRowCellAdd", "SColCellRowAdd", "STblCellRowAdd", "SColCellAddRow", "STblCellAddRow", "SColCellPre", "SColCellPost":
+		return true
+	}
+	return false
+}
+
+// rowOfCell finds the row a cell lives in by the cell's address (a row that
+// another table has taken reports that table's row number in Location()).
+func (h *c11Table) rowOfCell(c *tabular.Cell) (int, bool) {
+	for id, r := range h.rows {
+		cells := r.Cells()
+		for i := range cells {
+			if &cells[i] == c {
+				h.cellSeen[c] = id
+				return id, true
+			}
+		}
+	}
+	// a pointer into a backing array the row has since outgrown (a callback
+	// added a cell during the pass): remembered from the snapshot
+	id, ok := h.cellSeen[c]
+	return id, ok
+}
+
+// snapshotCells remembers where every cell of every known row lives now
+func (h *c11Table) snapshotCells() {
+	for id, r := range h.rows {
+		cells := r.Cells()
+		for i := range cells {
+			h.cellSeen[&cells[i]] = id
+		}
+	}
 }
 
 var c11DoName = []string{"nothing", "AddError-on-target", "row.Add(cell)", "nested.InvokeRenderCallbacks()"}
@@ -665,12 +726,28 @@ func (h *c11Table) raise(src int, id int, origin string) {
 	h.raised++
 	h.origin[id] = origin
 	h.srcOf[id] = src
+	if src >= 0 && h.taken[src] {
+		h.expOther = append(h.expOther, id)
+		return
+	}
 	if src < 0 || h.joined[src] {
 		h.expTable = append(h.expTable, id)
 	} else {
 		h.pending[src] = append(h.pending[src], id)
 		h.wasPending[id] = true
 	}
+}
+
+// raiseHere: an error handed to the table under test directly, whatever the
+// row it was raised for reports to
+func (h *c11Table) raiseHere(src int, id int, origin string) {
+	if id < 0 {
+		return
+	}
+	h.raised++
+	h.origin[id] = origin
+	h.srcOf[id] = src
+	h.expTable = append(h.expTable, id)
 }
 
 // callback origins grouped by time, so that a defect common to every site is
@@ -795,6 +872,9 @@ func c11SiteHasRow(s string) bool {
 func (cb *c11Cb) UpdateProperties(o tabular.PropertyOwner) error {
 	h := cb.h
 	cb.cnt++
+	if h.curKind == "otheradd" || h.curKind == "otherrender" {
+		return cb.firesInOther(o)
+	}
 	site := cb.site()
 	if site == "" {
 		h.tags = append(h.tags, "unexpected-firing")
@@ -806,7 +886,9 @@ func (cb *c11Cb) UpdateProperties(o tabular.PropertyOwner) error {
 		if h.curKind == "render" {
 			switch v := o.(type) {
 			case *tabular.Cell:
-				if n := v.Location().Row; n >= 1 && n <= len(h.order) {
+				if id, ok := h.rowOfCell(v); ok && len(h.taken) > 0 {
+					r = id
+				} else if n := v.Location().Row; n >= 1 && n <= len(h.order) {
 					r = h.order[n-1]
 				} else {
 					r = h.hdrID
@@ -824,11 +906,30 @@ func (cb *c11Cb) UpdateProperties(o tabular.PropertyOwner) error {
 	if h.depth > 0 {
 		h.tags = append(h.tags, "nested-firing="+site)
 	}
+	// a row the other table has taken: what is handed to the row is that table's
+	elsewhere := c11SiteHasRow(site) && h.taken[r] && c11SiteViaRow(site)
 	if !fail {
-		h.emit(fmt.Sprintf("CF %s %d None", site, r), fmt.Sprintf("callback at %s for row %d returns nil", site, r))
+		if elsewhere {
+			h.emit(fmt.Sprintf("OtherRowAddError %d None", r), fmt.Sprintf("callback at %s for row %d (now the other table's) returns nil", site, r))
+		} else {
+			h.emit(fmt.Sprintf("CF %s %d None", site, r), fmt.Sprintf("callback at %s for row %d returns nil", site, r))
+		}
 		return nil
 	}
 	id, e := h.x.freshKind(cb.ek - 1)
+	if elsewhere {
+		h.emit(fmt.Sprintf("OtherRowAddError %d (e %d)", r, id), fmt.Sprintf("callback at %s for row %d (now the other table's) returns e%d", site, r, id))
+		h.raise(r, id, "cb:"+site+":taken-row")
+		h.tags = append(h.tags, "fails-on-taken-row="+site)
+		return e
+	}
+	if c11SiteHasRow(site) && h.taken[r] {
+		// handed to the table under test directly (its render pass still visits the row)
+		h.emit(fmt.Sprintf("CF %s %d (e %d)", site, r, id), fmt.Sprintf("callback at %s for row %d (now the other table's) returns e%d to the table", site, r, id))
+		h.raiseHere(r, id, "cb:"+site)
+		h.tags = append(h.tags, "fails-for-taken-row="+site)
+		return e
+	}
 	origin := "cb:" + site
 	if site == "SRowCellAdd" && !h.joined[r] && h.rows[r] != nil && h.rows[r].ErrorContainer == nil {
 		origin += ":row-without-container"
@@ -840,6 +941,41 @@ func (cb *c11Cb) UpdateProperties(o tabular.PropertyOwner) error {
 	}
 	h.raise(src, id, origin)
 	h.tags = append(h.tags, "fails="+site)
+	return e
+}
+
+// a callback that fires while the OTHER table's AddRow or render pass runs (a
+// row's own callbacks travel with the row): whatever it returns is handed to
+// that table's container or to the row, which reports there by then
+func (cb *c11Cb) firesInOther(o tabular.PropertyOwner) error {
+	h := cb.h
+	kind := h.curKind
+	h.tags = append(h.tags, "fires-in-"+kind+"="+cb.set)
+	r := h.curRow
+	switch v := o.(type) {
+	case *tabular.Row:
+		if id, ok := h.rowID[v]; ok {
+			r = id
+		}
+	case *tabular.Cell:
+		if id, ok := h.rowOfCell(v); ok {
+			r = id
+		}
+	}
+	h.depth++
+	cb.act(o, "SRowItselfAddRow", r)
+	h.depth--
+	h.curKind = kind
+	fail := cb.pat == 0 || (cb.pat == 1 && cb.cnt%2 == 1)
+	if !fail {
+		h.emit("OtherAddError None", "a callback running inside the other table's "+kind[5:]+" returns nil")
+		return nil
+	}
+	id, e := h.x.freshKind(cb.ek - 1)
+	h.emit(fmt.Sprintf("OtherAddError (e %d)", id), fmt.Sprintf("a callback running inside the other table's %s returns e%d", kind[5:], id))
+	h.raised++
+	h.origin[id], h.srcOf[id] = "cb:"+kind, -2
+	h.expOther = append(h.expOther, id)
 	return e
 }
 
@@ -946,7 +1082,15 @@ func (h *c11Table) do(op c11Op) (name string, act func(), ok bool) {
 			return "", nil, false
 		}
 		name = fmt.Sprintf("row%d.Add(tabular.NewCell(\"x\"))", op.R)
-		if h.sep[op.R] {
+		if h.sep[op.R] && h.taken[op.R] {
+			id := h.x.next
+			h.x.next++
+			h.x.curMisuse = id
+			h.emit(fmt.Sprintf("OtherRowAddError %d (e %d)", op.R, id), fmt.Sprintf("Add on separator row %d (now the other table's): library error e%d", op.R, id))
+			h.raise(op.R, id, "misuse-on-separator")
+			h.tags = append(h.tags, "misuse-on-taken-separator")
+			name += " // a separator, now also a row of the other table"
+		} else if h.sep[op.R] {
 			id := h.x.next
 			h.x.next++
 			h.x.curMisuse = id
@@ -954,6 +1098,8 @@ func (h *c11Table) do(op c11Op) (name string, act func(), ok bool) {
 			h.raise(op.R, id, "misuse-on-separator")
 			h.tags = append(h.tags, "misuse-on-separator")
 			name += " // a separator"
+		} else if h.taken[op.R] {
+			h.tags = append(h.tags, "rowadd-taken")
 		} else if h.joined[op.R] {
 			h.tags = append(h.tags, "rowadd-attached")
 		} else {
@@ -970,9 +1116,15 @@ func (h *c11Table) do(op c11Op) (name string, act func(), ok bool) {
 		if op.E != 0 {
 			id, e = h.x.errOf(op.E)
 		}
-		h.emit(fmt.Sprintf("RowAddError %d %s", op.R, c11ErrCoq(id)), fmt.Sprintf("row %d AddError %s", op.R, c11ErrName(id)))
+		if h.taken[op.R] {
+			h.emit(fmt.Sprintf("OtherRowAddError %d %s", op.R, c11ErrCoq(id)), fmt.Sprintf("row %d (now the other table's) AddError %s", op.R, c11ErrName(id)))
+		} else {
+			h.emit(fmt.Sprintf("RowAddError %d %s", op.R, c11ErrCoq(id)), fmt.Sprintf("row %d AddError %s", op.R, c11ErrName(id)))
+		}
 		h.raise(op.R, id, "rowerr")
-		if h.joined[op.R] {
+		if h.taken[op.R] {
+			h.tags = append(h.tags, "rowerr-taken")
+		} else if h.joined[op.R] {
 			h.tags = append(h.tags, "rowerr-attached")
 		} else {
 			h.tags = append(h.tags, "rowerr-detached")
@@ -1007,11 +1159,68 @@ func (h *c11Table) do(op c11Op) (name string, act func(), ok bool) {
 		return "t.AddErrorList([]error{" + strings.Join(ns, ", ") + "})", func() { t.AddErrorList(el) }, true
 	case "addrow":
 		r := h.rows[op.R]
-		if r == nil || h.joined[op.R] {
+		if r == nil || h.joined[op.R] || h.taken[op.R] {
 			return "", nil, false
 		}
 		h.attach(op.R)
 		return fmt.Sprintf("t.AddRow(row%d)", op.R), func() { t.AddRow(r) }, true
+	case "otheradd":
+		// the row is added to ANOTHER table: a row still outside t, or one of t's
+		// own rows (body row or separator).  At most once per row; header rows
+		// are not reachable through the public API and stay out.
+		r := h.rows[op.R]
+		if r == nil || h.taken[op.R] || op.R >= 100 {
+			return "", nil, false
+		}
+		u := h.other()
+		name = fmt.Sprintf("u.AddRow(row%d)", op.R)
+		switch {
+		case h.sep[op.R]:
+			h.tags = append(h.tags, "other-table-takes=separator-of-t")
+		case h.joined[op.R]:
+			h.tags = append(h.tags, "other-table-takes=row-of-t")
+		default:
+			h.tags = append(h.tags, "other-table-takes=detached-row")
+		}
+		if h.joined[op.R] {
+			h.tags = append(h.tags, fmt.Sprintf("row-of-t-taken-while-t-holds-%d-errors", c11Min3(len(h.expTable))))
+			h.expOther = append(h.expOther, h.expTable...)
+		} else {
+			h.expOther = append(h.expOther, h.pending[op.R]...)
+		}
+		h.emit(fmt.Sprintf("OtherAttachRow %d", op.R), fmt.Sprintf("the other table's AddRow takes row %d", op.R))
+		h.taken[op.R] = true
+		return name, func() { u.AddRow(r) }, true
+	case "othererr":
+		u := h.other()
+		id := -1
+		var e error
+		if op.E != 0 {
+			id, e = h.x.errOf(op.E)
+		}
+		h.emit("OtherAddError "+c11ErrCoq(id), "the other table AddError "+c11ErrName(id))
+		if id >= 0 {
+			h.raised++
+			h.origin[id], h.srcOf[id] = "other-table-error", -2
+			h.expOther = append(h.expOther, id)
+		}
+		return fmt.Sprintf("u.AddError(%s)", c11ErrName(id)), func() { u.AddError(e) }, true
+	case "otherrender":
+		// the other table's render pass: the callbacks of the rows it took fire there
+		if h.u == nil {
+			return "", nil, false
+		}
+		u := h.u
+		h.snapshotCells()
+		return "u.InvokeRenderCallbacks()", func() { u.InvokeRenderCallbacks() }, true
+	case "otheritems":
+		// the other table gets a row of its own: nothing error-wise
+		u := h.other()
+		items := make([]interface{}, op.N)
+		for i := range items {
+			items[i] = "own"
+		}
+		return fmt.Sprintf("u.AddRowItems(%d items)", op.N), func() { u.AddRowItems(items...) }, true
 	case "appendnew":
 		if h.rows[op.R] != nil {
 			return "", nil, false
@@ -1075,6 +1284,9 @@ func (h *c11Table) do(op c11Op) (name string, act func(), ok bool) {
 		nm, ok := h.register(op)
 		return nm, func() {}, ok
 	case "render":
+		if len(h.taken) > 0 {
+			h.snapshotCells()
+		}
 		return "t.InvokeRenderCallbacks()", func() { t.InvokeRenderCallbacks() }, true
 	case "dump":
 		// every read-only way of looking at the table: nothing may change
@@ -1117,6 +1329,9 @@ func (h *c11Table) attach(r int) {
 }
 
 func (h *c11Table) expectedRow(r int) c11View {
+	if h.taken[r] {
+		return c11ViewOfLog(h.expOther)
+	}
 	if h.joined[r] {
 		return c11ViewOfLog(h.expTable)
 	}
@@ -1184,16 +1399,18 @@ func (h *c11Table) classify(got, want c11View, onRow bool, row int) string {
 
 func c11RunTable(sp c11Spec) CaseOut {
 	h := &c11Table{x: newC11Ids(), t: tabular.New(), rows: map[int]*tabular.Row{}, rowID: map[*tabular.Row]int{},
-		joined: map[int]bool{}, sep: map[int]bool{}, hdrID: 0, nextHdr: 100, pending: map[int][]int{}, origin: map[int]string{}, srcOf: map[int]int{}, wasPending: map[int]bool{}}
+		joined: map[int]bool{}, sep: map[int]bool{}, taken: map[int]bool{}, cellSeen: map[*tabular.Cell]int{}, hdrID: 0, nextHdr: 100, pending: map[int][]int{}, origin: map[int]string{}, srcOf: map[int]int{}, wasPending: map[int]bool{}}
 	h.x.ek = sp.Ek
 	desc := c11Desc{Kind: "table"}
 	var steps []string
+	var others []string // the other table's Errors() after each step ("None" while it does not exist)
 	goSnip := []string{"t := tabular.New()"}
 	size := 0
 	h.tags = []string{"kind=table"}
 	sigCorr := "" // a difference only the model comparison looks at
 	for _, op := range sp.Ops {
 		h.events, h.evDesc = nil, nil
+		hadOther := h.u != nil
 		name, act, ok := h.do(op)
 		if !ok {
 			desc.Skipped++
@@ -1211,11 +1428,15 @@ func c11RunTable(sp c11Spec) CaseOut {
 		goSnip = append(goSnip, name)
 		h.tags = append(h.tags, "op="+op.Op)
 		var tv c11View
+		ov := c11View{Nil: true}
 		var ids []int
 		var rvs []c11View
 		msg, panicked := c11Try(func() {
 			act()
 			tv = h.x.view(h.t.Errors())
+			if h.u != nil {
+				ov = h.x.view(h.u.Errors())
+			}
 			for id := range h.rows {
 				ids = append(ids, id)
 			}
@@ -1235,6 +1456,7 @@ func c11RunTable(sp c11Spec) CaseOut {
 			sd.Panic = msg
 			desc.Steps = append(desc.Steps, sd)
 			steps = append(steps, cqPair(cqList(h.events), "Panic"))
+			others = append(others, "None")
 			if desc.Sig == "" {
 				desc.Sig = "panic:" + op.Op
 			}
@@ -1242,6 +1464,12 @@ func c11RunTable(sp c11Spec) CaseOut {
 			break
 		}
 		sd.Table = tv.String()
+		if h.u != nil {
+			sd.Other = ov.String()
+			if !hadOther {
+				goSnip = append(goSnip[:len(goSnip)-1], "u := tabular.New()", goSnip[len(goSnip)-1])
+			}
+		}
 		var rs, rc []string
 		for i, id := range ids {
 			if id == c11InnerID {
@@ -1260,13 +1488,17 @@ func c11RunTable(sp c11Spec) CaseOut {
 			sd.Wrong = "Table.Errors() is not the expected log"
 			if desc.Sig == "" {
 				desc.Sig = h.classify(tv, want, false, -1)
+				if strings.HasPrefix(op.Op, "other") {
+					// nothing that is done to the other table is an event of this one
+					desc.Sig = "log-changed-by-" + op.Op + "-on-another-table"
+				}
 			}
 		} else {
 			// rows outside the table first (the property's oracle looks at those),
 			// then rows inside it (only the model comparison does)
 			for pass := 0; pass < 2 && sd.Wrong == ""; pass++ {
 				for i, id := range ids {
-					if h.joined[id] != (pass == 1) {
+					if (h.joined[id] || h.taken[id]) != (pass == 1) {
 						continue
 					}
 					if want := h.expectedRow(id); !rvs[i].eq(want) {
@@ -1276,6 +1508,8 @@ func c11RunTable(sp c11Spec) CaseOut {
 							case pass == 0:
 								desc.Sig = h.classify(rvs[i], want, true, id)
 							case sigCorr != "":
+							case h.taken[id]:
+								sigCorr = "row-of-the-other-table-does-not-show-that-table-log"
 							case h.sep[id]:
 								sigCorr = "D11-separator-row-does-not-show-the-table-log"
 							default:
@@ -1287,8 +1521,17 @@ func c11RunTable(sp c11Spec) CaseOut {
 				}
 			}
 		}
+		if h.u != nil && sd.Wrong == "" {
+			if want := c11ViewOfLog(h.expOther); !ov.eq(want) {
+				sd.Wrong = fmt.Sprintf("the other table's Errors() is %s, expected %s", ov, want)
+				if sigCorr == "" {
+					sigCorr = "other-table-log"
+				}
+			}
+		}
 		desc.Steps = append(desc.Steps, sd)
 		steps = append(steps, cqPair(cqList(h.events), "(let t := "+tv.Coq()+" in Ok "+cqPair("t", cqList(rc))+")"))
+		others = append(others, ov.Coq())
 	}
 	if desc.Sig == "" {
 		desc.Sig = sigCorr
@@ -1300,6 +1543,12 @@ func c11RunTable(sp c11Spec) CaseOut {
 	desc.Foreign = h.x.unexpected
 	desc.Kinds = h.x.kinds
 	term := "(CTab " + cqList(steps) + ")"
+	if h.u != nil {
+		for i := range steps {
+			steps[i] = cqPair(steps[i], others[i])
+		}
+		term = "(CTab2 " + cqList(steps) + ")"
+	}
 	if sp.Ek != 0 {
 		size++
 	}
@@ -1405,10 +1654,8 @@ var c11TableAlphabet = []c11Op{
 	{Op: "dump"},
 }
 
-// c11CreationCases: situation (who already holds errors) x creation path x
-// what happens to the new row, twice over so that a second row made the same
-// way meets the errors of the first.
-func c11CreationCases() []c11Spec {
+// who already holds errors when the row under study comes to exist
+func c11Situations() (map[string][]c11Op, []string) {
 	situations := map[string][]c11Op{
 		"no-errors":       {},
 		"table-error":     {{Op: "tblerr", E: 1}},
@@ -1421,6 +1668,14 @@ func c11CreationCases() []c11Spec {
 		"all":             {{Op: "tblerr", E: 1}, {Op: "newrow", R: 1}, {Op: "rowerr", R: 1, E: 1}, {Op: "sep", R: 2}, {Op: "rowadd", R: 2}, {Op: "appendnew", R: 3}, {Op: "rowerr", R: 3, E: 1}},
 	}
 	names := []string{"no-errors", "table-error", "table-list", "detached-other", "attached-other", "separator-error", "callback-errors", "render-errors", "all"}
+	return situations, names
+}
+
+// c11CreationCases: situation (who already holds errors) x creation path x
+// what happens to the new row, twice over so that a second row made the same
+// way meets the errors of the first.
+func c11CreationCases() []c11Spec {
+	situations, names := c11Situations()
 	// a creation path makes row r; detached paths are followed by the uses given
 	type path struct {
 		name     string
@@ -1465,6 +1720,118 @@ func c11CreationCases() []c11Spec {
 		}
 	}
 	return out
+}
+
+// c11SharingCases: a row is added to ANOTHER table - while it is still outside
+// the table under test, or when it already is one of its rows (made in every
+// way a row is made) - in every situation of errors already held; afterwards
+// both the shared row and the table under test go on collecting errors.
+func c11SharingCases() []c11Spec {
+	situations, names := c11Situations()
+	const r, r2 = 7, 8
+	origins := [][]c11Op{
+		{{Op: "newrow", R: r}, {Op: "rowadd", R: r}},
+		{{Op: "newrow", R: r}, {Op: "rowadd", R: r}, {Op: "rowerr", R: r, E: 1}},
+		{{Op: "newrow", R: r}, {Op: "rowadd", R: r}, {Op: "addrow", R: r}},
+		{{Op: "newrow", R: r, How: 2}, {Op: "rowerr", R: r, E: 1}, {Op: "addrow", R: r}, {Op: "rowerr", R: r, E: 1}},
+		{{Op: "appendnew", R: r}},
+		{{Op: "addrowitems", R: r, N: 2}},
+		{{Op: "sep", R: r}},
+	}
+	others := [][]c11Op{
+		{},
+		{{Op: "otheritems", N: 1}, {Op: "othererr", E: 1}},
+	}
+	afters := [][]c11Op{
+		{{Op: "tblerr", E: 1}},
+		{{Op: "rowerr", R: r, E: 1}, {Op: "rowadd", R: r}, {Op: "tblerr", E: 1}},
+		{{Op: "sep", R: r2}, {Op: "rowadd", R: r2}, {Op: "rowerr", R: r, E: 1}, {Op: "otheradd", R: r2}, {Op: "rowadd", R: r2}},
+		{{Op: "render"}, {Op: "appendnew", R: r2}, {Op: "rowerr", R: r2, E: 1}, {Op: "othererr", E: 1}, {Op: "otherrender"}, {Op: "dump"}},
+	}
+	var out []c11Spec
+	for _, sn := range names {
+		for _, o := range origins {
+			for _, u := range others {
+				for _, a := range afters {
+					ops := append([]c11Op{}, situations[sn]...)
+					ops = append(ops, o...)
+					ops = append(ops, u...)
+					ops = append(ops, c11Op{Op: "otheradd", R: r}, c11Op{Op: "dump"})
+					ops = append(ops, a...)
+					ops = append(ops, c11Op{Op: "render"})
+					out = append(out, c11Spec{Kind: "table", Ops: ops})
+				}
+			}
+		}
+	}
+	return out
+}
+
+// a build in which rows are shared with a second table; a registration is
+// inserted at two positions (before the first row gets its cell, and just
+// before the other table takes it)
+var c11ScenarioS = []c11Op{
+	{Op: "headers", N: 2},
+	{Op: "newrow", R: 1},
+	{Op: "rowadd", R: 1},
+	{Op: "rowerr", R: 1, E: 1},
+	{Op: "addrow", R: 1},
+	{Op: "sep", R: 2},
+	{Op: "rowadd", R: 2},
+	{Op: "addrowitems", R: 3, N: 2},
+	{Op: "otheritems", N: 1},
+	{Op: "otheradd", R: 1},
+	{Op: "rowadd", R: 1},
+	{Op: "rowerr", R: 1, E: 1},
+	{Op: "tblerr", E: 1},
+	{Op: "otheradd", R: 2},
+	{Op: "rowadd", R: 2},
+	{Op: "render"},
+	{Op: "newrow", R: 4},
+	{Op: "rowadd", R: 4},
+	{Op: "rowerr", R: 4, E: 1},
+	{Op: "otheradd", R: 4},
+	{Op: "rowadd", R: 4},
+	{Op: "rowadd", R: 3},
+	{Op: "otherrender"},
+	{Op: "render"},
+	{Op: "dump"},
+}
+
+// the routing alphabet with the second table in it
+var c11ShareAlphabet = []c11Op{
+	{Op: "rowadd", R: 1},
+	{Op: "rowerr", R: 1, E: 1},
+	{Op: "addrow", R: 1},
+	{Op: "sep", R: 2},
+	{Op: "rowadd", R: 2},
+	{Op: "tblerr", E: 1},
+	{Op: "render"},
+	{Op: "appendnew", R: 4},
+	{Op: "otheradd", R: 1},
+	{Op: "otheradd", R: 2},
+	{Op: "otheradd", R: 4},
+	{Op: "othererr", E: 1},
+}
+
+func c11HasOp(ops []c11Op, name string) bool {
+	for _, o := range ops {
+		if o.Op == name {
+			return true
+		}
+	}
+	return false
+}
+
+func c11RandOp2(r *RNG, nRows int) c11Op {
+	row := 1 + r.Intn(nRows)
+	switch r.Intn(10) {
+	case 0, 1:
+		return c11Op{Op: "otheradd", R: row}
+	case 2:
+		return pick(r, []c11Op{{Op: "othererr", E: 1}, {Op: "othererr", E: 0}, {Op: "otheritems", N: r.Intn(3)}, {Op: "otherrender"}})
+	}
+	return c11RandOp(r, nRows)
 }
 
 func c11RandOp(r *RNG, nRows int) c11Op {
@@ -1654,6 +2021,37 @@ func c11Gen(r *RNG, tier string) []json.RawMessage {
 	for _, sp := range c11CreationCases() {
 		add(sp)
 	}
+	// tables: a row shared with a second table
+	for _, sp := range c11SharingCases() {
+		add(sp)
+	}
+	for _, reg := range c11Registrations() {
+		for _, p := range []int{3, 9} {
+			add(c11Spec{Kind: "table", Ops: append(append(append([]c11Op{}, c11ScenarioS[:p]...), reg), c11ScenarioS[p:]...)})
+		}
+		for do := 1; do <= 3; do++ {
+			g := reg
+			g.Do = do
+			add(c11Spec{Kind: "table", Ops: append(append(append([]c11Op{}, c11ScenarioS[:3]...), reg, g), c11ScenarioS[3:]...)})
+		}
+	}
+	// every short history in which the other table takes a row, with and
+	// without failing callbacks in place
+	shareLen := 3
+	if tier == "thorough" {
+		shareLen = 4
+	}
+	for n := 1; n <= shareLen; n++ {
+		c11Seqs(c11ShareAlphabet, n, func(ops []c11Op) {
+			if !c11HasOp(ops, "otheradd") {
+				return
+			}
+			add(c11Spec{Kind: "table", Ops: append(append([]c11Op{}, pre...), ops...)})
+			if n < 3 || (n == 3 && tier == "thorough") {
+				add(c11Spec{Kind: "table", Ops: append([]c11Op{{Op: "newrow", R: 1}, {Op: "tblerr", E: 1}}, ops...)})
+			}
+		})
+	}
 	// random longer histories
 	m := 250
 	if tier == "thorough" {
@@ -1665,6 +2063,19 @@ func c11Gen(r *RNG, tier string) []json.RawMessage {
 		ops := make([]c11Op, 0, ln)
 		for j := 0; j < ln; j++ {
 			ops = append(ops, c11RandOp(r, nRows))
+		}
+		if r.Pct(50) {
+			ops = append(ops, c11Op{Op: "render"})
+		}
+		add(c11Spec{Kind: "table", Ek: r.Intn(c11Kinds), Ops: ops})
+	}
+	// random longer histories with a second table
+	for i := 0; i < m*3/5; i++ {
+		nRows := 1 + r.Intn(4)
+		ln := 6 + r.Intn(24)
+		ops := make([]c11Op, 0, ln)
+		for j := 0; j < ln; j++ {
+			ops = append(ops, c11RandOp2(r, nRows))
 		}
 		if r.Pct(50) {
 			ops = append(ops, c11Op{Op: "render"})
@@ -1785,9 +2196,10 @@ func init() {
 			"(detached, attached, on a separator), Row.AddError, Table.AddError, Table.AddErrorList, AddRow, AppendNewRow, AddRowItems, AddSeparator, AddHeaders, " +
 			"InvokeRenderCallbacks, with failing callbacks (which may also act from inside: AddError on their target, Row.Add of a cell that cell callbacks reject, InvokeRenderCallbacks of a nested table whose own callbacks fail; >= 2 failing callbacks per list) registered through RegisterPropertyCallback on table / column / row / cell owners for every target and time, " +
 			"before and after attach; all error values distinct, of 7 dynamic kinds (plain, errors.Join, fmt.Errorf with two %w, custom Unwrap() []error with and without causes, Unwrap() error, non-comparable), with messages never in alphabetical order of occurrence; a dump op (%#v, %v, GoString of table/rows/cells and every read-only accessor) between steps; Errors() of the table, of every row and of the container read after every step; " +
+			"a SECOND TABLE u beside the table under test: u.AddRow of a row still outside t and of a row that already is one of t's rows (made by AddRow, AppendNewRow, AddRowItems, AddSeparator) in every situation of errors already held by t, u with and without rows and errors of its own, followed by Row.AddError / Row.Add / separator misuse on the shared row, further errors on t, t.InvokeRenderCallbacks (which still visits the shared row) and u.InvokeRenderCallbacks, the row's own callbacks firing inside u.AddRow; Errors() of u read after every step too (compared with the model only; the property's oracle judges t and the rows outside both tables); " +
 			"non-trivial = at least one non-nil error is raised; distinct = distinct (history, observations)",
 		Exhaustive: "all 4096 container op sequences of length 4 (hence all shorter ones, as prefixes) over 8 ops x 3 creation modes; every accepted registration " +
-			"(owner x target x time) at every position of a 15-step and of an 8-step build scenario, and with the callback returning each of the 7 kinds of error value; all table histories of length <= 2 over a 15-op alphabet (10 routing ops, NewRowSizedFor/AddRow, AppendNewRow, AddRowItems, dump) and of length 3 over the routing ops plus dump (thorough: length 3 over all 15, length 4 over the 10 routing ops), and of length <= 2 with callbacks acting from inside; every row-creation path (NewRow, NewRowWithCapacity, NewRowSizedFor, AppendNewRow, AddRowItems, AddHeaders, AddSeparator) x 9 situations of errors already held x 4 uses, each path taken twice",
+			"(owner x target x time) at every position of a 15-step and of an 8-step build scenario, and with the callback returning each of the 7 kinds of error value; all table histories of length <= 2 over a 15-op alphabet (10 routing ops, NewRowSizedFor/AddRow, AppendNewRow, AddRowItems, dump) and of length 3 over the routing ops plus dump (thorough: length 3 over all 15, length 4 over the 10 routing ops), and of length <= 2 with callbacks acting from inside; every row-creation path (NewRow, NewRowWithCapacity, NewRowSizedFor, AppendNewRow, AddRowItems, AddHeaders, AddSeparator) x 9 situations of errors already held x 4 uses, each path taken twice; a row shared with a second table: 9 situations x 7 origins of the row (detached clean / with an error, AddRow, AddRow with errors before and after, AppendNewRow, AddRowItems, AddSeparator) x 2 states of the second table x 4 continuations; all histories of length <= 3 (thorough: 4) over a 12-op alphabet with the second table in it (AddRow by the other table of a pre-built row, a separator and an AppendNewRow row; its own AddError) that contain at least one such AddRow, with failing callbacks in place; every registration at 2 positions of a 25-step build that shares three rows",
 		Gen: c11Gen,
 		Run: func(spec json.RawMessage) CaseOut {
 			var sp c11Spec
